@@ -26,11 +26,16 @@ type wreq struct {
 }
 
 type wrep struct {
-	Outs []string   `json:"outs"`
-	Hits []corr.Hit `json:"hits"`
+	Outs    []string   `json:"outs"`
+	Hits    []corr.Hit `json:"hits"`
+	Recycle bool       `json:"recycle,omitempty"` // the worker ends after this reply; start a new one
 }
 
+var recycleWorker bool
+var isWorker bool
+
 func workerMain() {
+	isWorker = true
 	debug.SetMaxStack(48 << 20) // fail fast on runaway recursion
 	in := bufio.NewReaderSize(os.Stdin, 1<<20)
 	out := bufio.NewWriter(os.Stdout)
@@ -40,10 +45,13 @@ func workerMain() {
 			var rq wreq
 			if json.Unmarshal(line, &rq) == nil {
 				res := runCase(corr.Case{Lines: rq.Lines})
-				b, _ := json.Marshal(wrep{Outs: res.Outs, Hits: res.Hits})
+				b, _ := json.Marshal(wrep{Outs: res.Outs, Hits: res.Hits, Recycle: recycleWorker})
 				out.Write(b)
 				out.WriteByte('\n')
 				out.Flush()
+				if recycleWorker {
+					return
+				}
 			}
 		}
 		if err != nil {
@@ -64,6 +72,28 @@ func (t *tailBuf) Write(p []byte) (int, error) {
 		t.b.Write(p)
 	}
 	return len(p), nil
+}
+
+func (t *tailBuf) reset() {
+	t.mu.Lock()
+	t.b.Reset()
+	t.mu.Unlock()
+}
+
+// pending returns the argument of the last `marker` line that was not followed by its `-DONE` line.
+func (t *tailBuf) pending(marker string) (string, bool) {
+	t.mu.Lock()
+	defer t.mu.Unlock()
+	open, arg := false, ""
+	for _, l := range strings.Split(t.b.String(), "\n") {
+		switch {
+		case strings.HasPrefix(l, marker+"-DONE"):
+			open = false
+		case strings.HasPrefix(l, marker+" "):
+			open, arg = true, strings.TrimPrefix(l, marker+" ")
+		}
+	}
+	return arg, open
 }
 
 func (t *tailBuf) head() string {
@@ -114,14 +144,14 @@ func (w *worker) kill() {
 	_, _ = w.cmd.Process.Wait()
 }
 
-// harnessDied: the worker stopped itself with a harness error (exit 2) — pass it on instead of blaming the implementation.
+// harnessDied: the worker stopped itself with a harness error (exit 3) — pass it on instead of blaming the implementation.
 func (w *worker) harnessDied() (string, bool) {
 	_ = w.in.Close()
 	done := make(chan error, 1)
 	go func() { done <- w.cmd.Wait() }()
 	select {
 	case err := <-done:
-		if ee, ok := err.(*exec.ExitError); ok && ee.ExitCode() == 2 {
+		if ee, ok := err.(*exec.ExitError); ok && ee.ExitCode() == 3 {
 			w.errb.mu.Lock()
 			defer w.errb.mu.Unlock()
 			return w.errb.b.String(), true
@@ -133,13 +163,23 @@ func (w *worker) harnessDied() (string, bool) {
 
 // runIsolated executes a script in the worker process.
 func runIsolated(c corr.Case) corr.Result {
+	var eb *tailBuf
 	crash := func(msg string) corr.Result {
 		outs := make([]string, len(c.Lines))
 		for i := range outs {
 			outs[i] = "crash"
 		}
-		return corr.Result{Outs: outs, Hits: []corr.Hit{{Key: "C03:impl:fatal-runtime-error",
-			What: "the implementation brought the process down while executing the script: " + msg}}}
+		key, what := "C03:impl:fatal-runtime-error", "the implementation brought the process down while executing the script: "+msg
+		if eb != nil {
+			if call, open := eb.pending("C03-BIGLIMIT"); open {
+				key = "C03:tree:iterWalk:limit-panics-or-exhausts-memory"
+				what = "`" + call + "` brought the process down (" + msg + ") — the first n matching items exist and are few"
+			} else if _, open := eb.pending("C03-PAR"); open {
+				key = "C03:concurrency:clone-writers:crash"
+				what = "writers on a tree and its clones running concurrently brought the process down: " + msg
+			}
+		}
+		return corr.Result{Outs: outs, Hits: []corr.Hit{{Key: key, What: what}}}
 	}
 	if os.Getenv("C03_INPROC") != "" {
 		return runCase(c) // e.g. a `-race` build, whose reports must reach this process's stderr
@@ -152,6 +192,8 @@ func runIsolated(c corr.Case) corr.Result {
 		curWorker = w
 	}
 	w := curWorker
+	eb = w.errb
+	eb.reset()
 	b, _ := json.Marshal(wreq{Lines: c.Lines})
 	if _, err := w.in.Write(append(b, '\n')); err != nil {
 		msg := w.errb.head()
@@ -182,10 +224,15 @@ func runIsolated(c corr.Case) corr.Result {
 			curWorker = nil
 			return crash(msg)
 		}
+		if rp.Recycle {
+			w.kill()
+			curWorker = nil
+		}
 		return corr.Result{Outs: rp.Outs, Hits: rp.Hits}
-	case <-time.After(120 * time.Second):
+	case <-time.After(300 * time.Second):
 		w.kill()
-		curWorker = nil
-		return crash(fmt.Sprintf("no answer within 120 s"))
+		fmt.Fprintln(os.Stderr, "harness error: worker gave no answer within 300 s (wall clock): no verdict")
+		os.Exit(2)
+		return corr.Result{}
 	}
 }
